@@ -68,12 +68,21 @@ def r_cols_reader(ctx):
             for e in p.events:
                 if e.kind == "loop" and e.d["what"] == "enter":
                     iters[e.d["lid"]] = e
+            idl = rd[1].loops[-1] if rd[1].loops else None
+            pv = [x for x in p.events if x.kind == "call" and x.d["fn"].endswith("Vec::<T, A>::push") and x.loops and x.loops[-1] == idl]
+            pushed_vec = unmut(pv[0].d["args"][0]) if len(pv) == 1 else None
             for col, e in zip(COLS[1:], rd[1:]):
                 want_ty = col["int"]
                 got = targ(e)
                 obs.append(Ob("R-COLS", fn, "decode: %s is %s" % (col["name"], want_ty), got == want_ty, "%s column read as %s" % (col["name"], got), e.loc()))
                 it = _loop_iter_term(p, e.loops[-1]) if e.loops else None
                 ok_range = it is not None and it[0] == "struct" and it[1] == "core::ops::range::Range" and struct_field(it, "start") == C(0) and unmut(struct_field(it, "end")) == count_t
+                if not ok_range and it is not None and col["name"] != "tile_id":
+                    # `for entry in &mut entries`: the vector holds exactly `count` entries, pushed one per iteration of the 0..count id pass
+                    base = it
+                    while is_call_to(base, lambda s: s.endswith(("::iter_mut", "::iter", "::into_iter", "::enumerate"))) and base[2]:
+                        base = base[2][0]
+                    ok_range = pushed_vec is not None and base == pushed_vec
                 obs.append(Ob("R-COLS", fn, "decode: %s loop runs 0..count" % col["name"], ok_range, "iterates %s" % (tstr(it)[:100] if it else "?"), e.loc()))
             # all transfers through one codec handle over take(length)
             recvs = set(unmut(e.d["args"][0]) for e in rd)
@@ -98,7 +107,7 @@ def r_cols_reader(ctx):
             ent_var = None
             ok_res = is_call_to(v, lambda s: s == "core::result::Result::Ok") and v[2] and v[2][0][0] == "struct" and v[2][0][1] == "directory::Directory"
             obs.append(Ob("R-COLS", fn, "decode: returns Directory{entries}", ok_res, "returns %s" % tstr(v)[:100], rel(f["loc"])))
-        obs.append(Ob("R-OFFRULE", fn, "decode: both arms of the offset rule exist", seen_offset_arms == {"contig", "explicit"},
+        obs.append(Ob("R-OFFRULE", fn, "decode: both arms of the offset rule exist", {"contig", "explicit"} <= seen_offset_arms,
                       "arms seen on success paths: %s" % sorted(seen_offset_arms), rel(f["loc"])))
     return obs
 
@@ -130,7 +139,7 @@ def _check_store(fn, p, rd, field, rule):
         e, pl = st[0]
         val = unmut(e.d["value"])
         base = pl[1]
-        ok_idx = base[0] == "idx" and base[2][0] == "elem" and base[2][2] == lid
+        ok_idx = (base[0] == "idx" and base[2][0] == "elem" and base[2][2] == lid) or (base[0] == "elem" and base[2] == lid)
         ok = val == unmut(rd.d["ret"]) and ok_idx and e.seq > rd.seq
         why = "%s = %s" % (tstr(pl)[:80], tstr(val)[:80])
     return [Ob(rule, fn, "decode: %s column stored into entries[i].%s of the loop index" % (field, field), ok, why, rd.loc())]
@@ -188,7 +197,14 @@ def r_len0_err(ctx):
                 c = unmut(d.d["cond"])
                 if d.d["how"] == "if" and c[0] == "bin" and c[1] == "==" and C(0) in (c[2], c[3]) and d.d["outcome"] is True:
                     other = c[3] if c[2] == C(0) else c[2]
-                    is_len = (other[0] == "f" and other[2] == "length") or (other[0] == "call" and other[1] in VREAD)
+                    stored_len = set()
+                    for q in fa.paths:
+                        for ev_ in q.events:
+                            if ev_.kind == "assign" and ev_.d.get("place") is not None:
+                                pl_ = unmut(ev_.d["place"])
+                                if pl_[0] == "f" and pl_[2] == "length":
+                                    stored_len.add(unmut(ev_.d["value"]))
+                    is_len = (other[0] == "f" and other[2] == "length") or (other in stored_len)
                     if is_len:
                         n += 1
                         obs.append(Ob("R-LEN0", f["path"], "length == 0 ⇒ Err", p.exit == "err", "path exit after length == 0: %s" % p.exit, d.loc()))
@@ -205,29 +221,91 @@ def _check_offrule_reader(fn, fa, p, rd):
     if len(st) != 1:
         return [Ob("R-OFFRULE", fn, "decode: offset store", False, "expected one store to .offset in the offset loop, found %d" % len(st), rd.loc())], None
     e, pl = st[0]
-    i_t = pl[1][2] if pl[1][0] == "idx" else None
+    cur = pl[1]                                  # the entry being completed: entries[i] or the loop element
     stored = unmut(e.d["value"])
-    # the deciding condition
-    dec = None
-    for d in p.decisions(e.seq):
-        if d.d["how"] == "if" and d.seq > rd.seq:
-            cj = [unmut(c) for c in _conjuncts(unmut(d.d["cond"]))]
-            has_i = any(c[0] == "bin" and c[1] == ">" and c[2] == i_t and c[3] == C(0) for c in cj) or any(c[0] == "bin" and c[1] == "!=" and {c[2], c[3]} == {i_t, C(0)} for c in cj)
-            has_v = any(c[0] == "bin" and c[1] == "==" and {c[2], c[3]} == {val, C(0)} for c in cj)
-            if has_i and has_v and len(cj) == 2:
-                dec = d
-    if dec is None:
-        return [Ob("R-OFFRULE", fn, "decode: condition is `i > 0 && val == 0`", False, "no such decision before the offset store", e.loc())], None
     a = affine(stored)
-    if dec.d["outcome"] is True:
-        prev = ("idx", pl[1][1], ("bin", "-", i_t, C(1)))
-        want = (0, {("f", prev, "offset"): 1, ("f", prev, "length"): 1})
-        ok = aff_eq(a, want)
-        obs.append(Ob("R-OFFRULE", fn, "decode: contiguous arm = prev.offset + prev.length", ok, "stored %s" % aff_str(a), e.loc()))
+    # which arm is this path on?  contiguous arm: the raw value is known to be 0 and a previous entry is known to exist
+    facts = [f for f, d in path_facts(p, e.seq, after=rd.seq)]
+    raw0 = ("eq", val, 0) in facts
+    prev = _previous_entry(fa, p, cur, lid, facts)
+    atoms = [k for k in a[1]]
+    uses_prev = prev is not None and a[0] == 0 and a[1] == {("f", prev, "offset"): 1, ("f", prev, "length"): 1}
+    if uses_prev:
+        ok = raw0
+        obs.append(Ob("R-OFFRULE", fn, "decode: contiguous arm = prev.offset + prev.length, taken only for index > 0 and raw value 0", ok,
+                      "stored %s; raw == 0 established: %s" % (aff_str(a), raw0), e.loc()))
         return obs, "contig"
     want = (-1, {val: 1})
-    obs.append(Ob("R-OFFRULE", fn, "decode: explicit arm = val − 1", aff_eq(a, want), "stored %s" % aff_str(a), e.loc()))
-    return obs, "explicit"
+    if aff_eq(a, want):
+        # the explicit arm must be the exact complement of the contiguous one: the same decision, other outcome
+        compl = _complement_of_contig(fa, p, rd, e, val, cur, lid)
+        obs.append(Ob("R-OFFRULE", fn, "decode: explicit arm = val − 1, taken exactly when the contiguous condition fails", compl, "stored %s" % aff_str(a), e.loc()))
+        return obs, "explicit"
+    obs.append(Ob("R-OFFRULE", fn, "decode: stored offset is prev.offset + prev.length or val − 1", False, "stored %s" % aff_str(a), e.loc()))
+    return obs, None
+
+
+def _previous_entry(fa, p, cur, lid, facts):
+    """the term denoting the entry before `cur`, if this path has established that one exists:
+       entries[i − 1] with i ≠ 0, or a loop-carried Option<Entry> known to be Some whose only non-None source is the entry just completed"""
+    if cur[0] == "idx" and cur[2][0] == "elem":
+        i_t = cur[2]
+        if ("ne", i_t, 0) in facts:
+            return ("idx", cur[1], ("bin", "-", i_t, C(1)))
+        return None
+    for f in facts:
+        if f[0] == "variant" and f[2] == "core::option::Option::Some" and f[3] is True:
+            cand = f[1]
+            base = cand
+            while is_call_to(base, lambda s: s.endswith(("::as_ref", "::as_mut", "::as_deref", "::copied", "::cloned"))) and base[2]:
+                base = base[2][0]
+            if base[0] == "v" and base[1].startswith("loop%s:" % lid):
+                srcs = [unmut(s) for s in fa.havoc_src.get(base, ())]
+                somes = [s for s in srcs if is_call_to(s, lambda x: x == "core::option::Option::Some")]
+                nones = [s for s in srcs if is_call_to(s, lambda x: x == "core::option::Option::None")]
+                if len(somes) >= 1 and len(somes) + len(nones) == len(srcs) and all(_same_entry(s[2][0], cur) for s in somes):
+                    return cand if cand == base else cand
+    return None
+
+
+def _same_entry(t, cur):
+    t = unmut(t)
+    while is_call_to(t, lambda s: s.endswith(("::clone", "::copied", "::cloned", "::to_owned"))) and t[2]:
+        t = t[2][0]
+    return t == cur
+
+
+def _complement_of_contig(fa, p, rd, e, val, cur, lid):
+    """on this (explicit) path some decision after the read was taken with the outcome opposite to the one that establishes the contiguous condition"""
+    class _D:
+        pass
+    for d in p.decisions(e.seq):
+        if d.seq < rd.seq:
+            continue
+        for flip in _flips(d):
+            fs = decision_facts(flip)
+            if ("eq", val, 0) in fs:
+                # together with everything else known on the path up to that decision, would a previous entry be established?
+                others = [f for f, dd in path_facts(p, d.seq, after=rd.seq)] + fs
+                if _previous_entry(fa, p, cur, lid, others) is not None:
+                    return True
+    # a `match prev { Some(p) if raw == 0 => .., _ => .. }`: falling to the catch-all arm is the complement by construction
+    for d in p.decisions(e.seq):
+        if d.seq > rd.seq and d.d["how"] == "match" and d.d.get("pat") is not None and d.d["pat"]["k"] in ("Wild", "Bind"):
+            arms = (d.node or {}).get("arms") or []
+            if len(arms) == 2 and arms[0].get("guard") is not None:
+                return True
+    return False
+
+
+def _flips(d):
+    class _D:
+        pass
+    out = []
+    if d.d["how"] == "if" and d.d["outcome"] in (True, False):
+        o = _D(); o.d = dict(d.d); o.node = d.node; o.d["outcome"] = not d.d["outcome"]
+        out.append(o)
+    return out
 
 
 # ------------------------------------------------------------------------------------------------
@@ -306,15 +384,18 @@ def r_cols_writer(ctx):
                 val = unmut(offw.d["args"][1])
                 dec = None
                 nb = None
+                contig = None
+                # the deciding branch, in whatever form it is written (`i > 0 && off == nb`, `i == 0 || off != nb` with swapped arms, a helper …):
+                # on one outcome both facts hold (contiguous arm), the other outcome is its complement (explicit arm)
                 for d in p.decisions(offw.seq):
                     if d.d["how"] != "if" or not d.loops or d.loops[-1] != offw.loops[-1]:
                         continue
-                    cj = [unmut(c) for c in _conjuncts(unmut(d.d["cond"]))]
-                    has_i = idx is not None and any(c[0] == "bin" and c[1] == ">" and c[2] == idx and c[3] == C(0) for c in cj)
-                    eqs = [c for c in cj if c[0] == "bin" and c[1] == "==" and ("f", ent, "offset") in (c[2], c[3])]
-                    if has_i and len(eqs) == 1 and len(cj) == 2:
-                        dec = d
-                        nb = eqs[0][3] if eqs[0][2] == ("f", ent, "offset") else eqs[0][2]
+                    both = _offrule_facts(d, idx, ent)
+                    other = _offrule_facts_flipped(d, idx, ent)
+                    if both is not None:
+                        dec, nb, contig = d, both, True
+                    elif other is not None:
+                        dec, nb, contig = d, other, False
                 if dec is None:
                     obs.append(Ob("R-OFFRULE", fn, "encode: condition is `index > 0 && offset == next_byte`", False, "no such decision before the offset write", offw.loc()))
                 else:
@@ -323,7 +404,7 @@ def r_cols_writer(ctx):
                     ok_nb = bool(srcs) and C(0) in srcs and all(s == C(0) or aff_eq(affine(s), want_nb) for s in srcs) and len(srcs) == 2
                     obs.append(Ob("R-OFFRULE", fn, "encode: next_byte = previous offset + previous length (first: 0)", ok_nb, "next_byte sources = %s" % [tstr(s)[:60] for s in srcs], dec.loc()))
                     a = affine(val)
-                    if dec.d["outcome"] is True:
+                    if contig:
                         arms.add("contig")
                         obs.append(Ob("R-OFFRULE", fn, "encode: contiguous arm emits 0", aff_eq(a, (0, {})), "emitted %s" % aff_str(a), offw.loc()))
                     else:
@@ -359,3 +440,29 @@ def r_dir_twins(ctx):
     obs.append(Ob("R-COLS", "<crate>", "decoder twins", len(dir_decoders(ctx)) == want, "directory decoders found: %d (expected %d)" % (len(dir_decoders(ctx)), want)))
     obs.append(Ob("R-COLS", "<crate>", "encoder twins", len(dir_encoders(ctx)) == want, "directory encoders found: %d (expected %d)" % (len(dir_encoders(ctx)), want)))
     return obs
+
+
+def _offrule_facts(d, idx, ent):
+    """if decision d (with its outcome) establishes `index != 0` and `entry.offset == X`, return X"""
+    fs = decision_facts(d)
+    has_i = idx is not None and (("ne", idx, 0) in fs)
+    eq = [f for f in fs if f[0] == "rel" and f[1] == "==" and ("f", ent, "offset") in (f[2], f[3])]
+    if has_i and len(eq) == 1:
+        return eq[0][3] if eq[0][2] == ("f", ent, "offset") else eq[0][2]
+    return None
+
+
+def _offrule_facts_flipped(d, idx, ent):
+    """the same decision with the opposite outcome would establish both facts: this outcome is the exact complement (explicit arm)"""
+    class _D:
+        pass
+    o = _D()
+    o.d = dict(d.d)
+    o.node = d.node
+    if d.d["outcome"] is True:
+        o.d["outcome"] = False
+    elif d.d["outcome"] is False:
+        o.d["outcome"] = True
+    else:
+        return None
+    return _offrule_facts(o, idx, ent)
